@@ -856,7 +856,41 @@ def _inline_filter_generators(tree: ast.Module) -> int:
     return done
 
 
+def _unclash_local_imports(tree: ast.Module) -> int:
+    """Two functions of one module bind the SAME local alias to different things (`from ...degree import degree_sequence as _impl` in one
+    method, `from ...degree import degree as _impl` in the next).  The module-wide import table of the model has one entry per alias,
+    so such an alias is renamed per function (`_impl` -> `_impl__degree_sequence`): import and uses, inside that function only."""
+    seen = {}
+    for n in ast.walk(tree):
+        if isinstance(n, (ast.Import, ast.ImportFrom)):
+            for a in n.names:
+                if a.name != "*":
+                    seen.setdefault(a.asname or a.name.split(".")[0], set()).add((getattr(n, "module", None), a.name))
+    clash = {k for k, v_ in seen.items() if len(v_) > 1}
+    if not clash:
+        return 0
+    done = 0
+    for fn in [x for x in ast.walk(tree) if isinstance(x, (ast.FunctionDef, ast.AsyncFunctionDef))]:
+        local = {}
+        for n in fn.body:
+            if isinstance(n, (ast.Import, ast.ImportFrom)):
+                for a in n.names:
+                    al = a.asname or a.name.split(".")[0]
+                    if al in clash and a.name != "*":
+                        new = f"{al}__{a.name.replace('.', '_')}"
+                        local[al] = new
+                        a.asname = new
+        if not local:
+            continue
+        for x in ast.walk(fn):
+            if isinstance(x, ast.Name) and x.id in local:
+                x.id = local[x.id]
+        done += 1
+    return done
+
+
 def canonicalise(tree: ast.Module) -> ast.Module:
+    _unclash_local_imports(tree)
     _inline_filter_generators(tree)
     tables = _module_tables(tree)
     for fn in _functions(tree):
